@@ -134,6 +134,10 @@ def applyAck (s : St) : Op → St
     let rs := (catGet s.cat n).getD []
     { s with cat := catSet s.cat n (if rs.contains r then rs else rs ++ [r]) }
   | .sessRule r => { s with sess := s.sess ++ [r] }
+  | .replace n i r =>
+    match catGet s.cat n with
+    | some rs => if i < rs.length then { s with cat := catSet s.cat n (rs.set i r) } else s
+    | none => s
   | op => (step s op).1
 
 inductive Verdict where
@@ -146,12 +150,18 @@ def judge (s : St) (op : Op) (o : String) : Verdict :=
   | some rs =>
     let neg := stratRejects rs
     if o == "eval" && neg then
-      .fail (if stratRejects (catRules s.cat) then "replace_unchecked" else "session_rules_unchecked")
-        "unstratifiable-rule-set-was-evaluated"
+      -- (repaired defect families, kept in the detail for diagnosis: catalog itself unstratifiable =
+      --  `replace_unchecked`, otherwise `session_rules_unchecked`)
+      .fail "unclassified" (if stratRejects (catRules s.cat) then "unstratifiable-catalog-was-evaluated"
+                            else "unstratifiable-union-with-session-rules-was-evaluated")
     else if o != "eval" && !neg && (step s op).2 == .eval then .fail "unclassified" s!"stratifiable-safe-query-rejected:{o}"
     else .pass
   | none =>
     match op with
+    | .replace n i r =>
+      if o == "ok" && stratRejects (catRules (catSet s.cat n (((catGet s.cat n).getD []).set i r))) then
+        .fail "unclassified" "unstratifiable-clause-replacement-stored"
+      else .pass
     | .persist r | .registerApi r =>
       if o == "ok" && stratRejects (catRules s.cat ++ [r]) then .fail "unclassified" "unstratifiable-rule-registered"
       else if o != "ok" && (step s op).2 == .ok then .fail "unclassified" s!"stratifiable-valid-rule-rejected:{o}"
